@@ -325,12 +325,12 @@ class System:
         t = threading.Thread(target=body, name=role, daemon=True)
         t.start()
         if wait:
-            t.join(30)
+            t.join(120)
             if t.is_alive():
                 raise Stall("role %s did not return (wait-for cycle: %s)" % (role, spy.find_wait_cycle()))
         return t if not wait else box.get("r")
 
-    def wait_until(self, cond, what, secs=15):
+    def wait_until(self, cond, what, secs=90):
         end = _time.time() + secs
         while not cond():
             if _time.time() > end:
@@ -376,7 +376,7 @@ class System:
         ts = [self.as_role("feeder", lambda k=k: [self.receiver.add_data(d) for d in datas[k::threads]],
                            wait=False, what="receiver.add_data") for k in range(threads)]
         for t in ts:
-            t.join(30)
+            t.join(120)
             if t.is_alive():
                 raise Stall("feeder did not return")
 
@@ -388,7 +388,7 @@ class System:
             n += 1
             if self.dispatched > self.responded:
                 if self.kind != "blocking":       # the pool is working: wait for a response to forward
-                    self.wait_until(lambda: self.handler.size() > 0, "no response from the action pool", 10)
+                    self.wait_until(lambda: self.handler.size() > 0, "no response from the action pool", 90)
                 continue
             if n >= rounds:
                 return
@@ -492,7 +492,7 @@ class System:
         et = self.as_role("engine", self.engine.run, wait=False, what="engine.run")
         _time.sleep(0.05)
         self.as_role("control", self.engine.close, what="engine.close")
-        et.join(15)
+        et.join(90)
         if et.is_alive():
             raise Stall("engine.run() did not return after close()")
         self.as_role("control", self.dist.close, what="dist.close")
@@ -784,8 +784,8 @@ def run(ctx, res):
     rng = ctx.rng
     res.rule = META["rule"]
     kinds_run = KINDS if ctx.quick else KINDS_THOROUGH
-    recs = [_spawn(["--record", k], 90) for k in kinds_run]
-    stress = _spawn(["--stress", "threads", "2.5" if ctx.quick else "12"], 60)
+    recs = [_spawn(["--record", k], 400) for k in kinds_run]
+    stress = _spawn(["--stress", "threads", "2.5" if ctx.quick else "12"], 240)
     recs = [_collect(p) for p in recs]
 
     facts = {}            # key -> dict(kinds, count, site)
